@@ -487,3 +487,42 @@ func HarnessFmtDiffStatement() {
 func HarnessFmtDiffLayout() {
 	verifDiffProperty(verifLayoutInput(), "")
 }
+
+// H09c: descriptions long enough to be re-wrapped (the wrap width is 80 columns
+// less the indentation): words around the wrap boundary, runs of spaces between
+// and after them, an optional continuation line or second paragraph, at depth 0
+// or inside a block. Same property as everywhere: same document, idempotent.
+func verifRepeat(c byte, n int) string {
+	b := make([]byte, n)
+	for i := range b {
+		b[i] = c
+	}
+	return string(b)
+}
+
+func HarnessFmtLongDescription() {
+	first := ndIntRange("firstWord", verifParam("minFirst", 70), verifParam("maxFirst", 80))
+	spaces := ndIntRange("spaces", 1, 2)
+	second := []int{1, 8, 9, 10, 11}[ndChoice("secondWord", 5)]
+	trailing := ndIntRange("trailingSpaces", 0, 1)
+	cont := ndChoice("continuation", 3)
+	depth := ndIntRange("depth", 0, 1)
+	ind := ""
+	s := ""
+	if depth == 1 {
+		s += "blk t {\n"
+		ind = "    "
+		first -= 4
+	}
+	s += ind + "| " + verifRepeat('a', first) + verifRepeat(' ', spaces) + verifRepeat('b', second) + verifRepeat(' ', trailing) + "\n"
+	switch cont {
+	case 1:
+		s += ind + "| cc\n"
+	case 2:
+		s += ind + "|\n" + ind + "| cc\n"
+	}
+	if depth == 1 {
+		s += "}\n"
+	}
+	verifFmtProperty(s, ":long-description")
+}
